@@ -201,6 +201,24 @@ def gated(tag):
     return scs
 
 
+def close_during_outage(tag):
+    """a stream is closed by the application while the connection is being re-established (the redial is held at a gate): the Close
+    returns within its bound, the other streams are resumed and work, the closed stream stays closed."""
+    scs = []
+    for victim, rest in (("S1", ("S2", "S3")), ("S2", ("S1", "S3"))):
+        for delay in (0, 40):
+            conn = {"pingMs": [100, 100], "dialDelayMs": delay}
+            ss = ("S1", "S2", "S3")
+            obj, kind = STREAM_OBJ[victim]
+            steps = prelude(ss, conn) + [{"a": "dialPlan", "dial": [{"do": "ok", "gate": "g1"}]}, {"a": "cut"},
+                                         {"a": "await", "ev": "Dial", "match": {"n": 2}, "ms": 3000, "must": True}, {"a": "sleep", "ms": 30},
+                                         {"a": "closeUp" if kind == "up" else "closeDown", "g": "CV", "obj": obj, "ctxMs": 1500, "wait": True},
+                                         {"a": "release", "gate": "g1"}, {"a": "await", "ev": "Reconnected", "n": 1, "ms": 4000}, {"a": "sleep", "ms": 250}]
+            steps += probes(rest) + teardown(rest)
+            scs.append({"id": "%s/closeDuringOutage/%s/d%d" % (tag, victim, delay), "kind": "iscp", "conn": conn, "steps": steps})
+    return scs
+
+
 def resume_overlap(tag):
     """a second outage is decided while the resume request of the first one is still unanswered: the client-side write of an application
     request fails on the new connection (its read direction keeps working), the application's Disconnected handler takes its time, and
